@@ -50,7 +50,8 @@ PStart == /\ Ev("Start") /\ Halt
           /\ UNCHANGED <<reg, cfg, env, hist>>
           /\ GhostStart(N)
 PSt    == /\ Ev("St") /\ Halt
-          /\ Logged /\ UNCHANGED <<loc, env, hist>>
+          /\ Logged /\ UNCHANGED <<env, hist>>
+          /\ loc' = IF Trace[l].k = "Rr" THEN [loc EXCEPT ![N].rl = LReg(Trace[l].reg)] ELSE loc    \* what the node last read
           /\ GhostStep(N, loc[N].op, Trace[l].k, Trace[l].db, Trace[l].ok, LCfg(Trace[l].val), "", NoOut)
 PRet   == /\ Ev("Ret") /\ Halt
           /\ Logged /\ loc' = [loc EXCEPT ![N] = Idle] /\ UNCHANGED <<env, hist>>
@@ -61,7 +62,7 @@ PCrash == /\ Ev("Crash") /\ Halt
           /\ GhostCrash(N)
 PHang  == /\ Ev("Hang") /\ Halt          \* a follow-up that never returns: Recoverable is broken
           /\ okRec' = FALSE
-          /\ UNCHANGED <<impl, env, hist, abs, written, committed, chg, wr, solo, cleanStart, tainted, devs, okLoad, okOwnLoad, okRej, okAck>>
+          /\ UNCHANGED <<impl, env, hist, abs, written, committed, chg, wr, solo, cleanStart, staleBy, tainted, devs, okLoad, okOwnLoad, okRej, okAck>>
 PNext == PStart \/ PSt \/ PRet \/ PCrash \/ PHang
 PSpec == TInit /\ [][PNext]_tvars
 
